@@ -237,6 +237,7 @@ func Sim(t *testing.T, body func(r *Run)) {
 		ResetCallIndex()
 		r := &Run{T: rt, Prop: Prop(), faults: map[string]*FaultCount{}, counters: map[string]int64{}, cells: map[string]map[string]bool{}}
 		defer r.finish()
+		installWorldDraws(r)
 		defer func() {
 			if x := recover(); x != nil {
 				sr, ok := x.(SetupRefused)
